@@ -135,7 +135,7 @@ func (e *ep[A]) PublicKey() (x509.PublicKey, bool) {
 
 // cluster wraps one swarm per node into endpoints that know each other's addresses.
 // pick selects which local address of a node the others use for it.
-func cluster[A p2p.Addr](sws []p2p.Swarm[A]) []Endpoint {
+func cluster[A p2p.Addr](sws []p2p.Swarm[A], askOK bool) []Endpoint {
 	peers := make([]A, len(sws))
 	for i, s := range sws {
 		peers[i] = s.LocalAddrs()[0]
@@ -143,7 +143,7 @@ func cluster[A p2p.Addr](sws []p2p.Swarm[A]) []Endpoint {
 	out := make([]Endpoint, len(sws))
 	for i, s := range sws {
 		e := &ep[A]{node: i, sw: s, peers: &peers}
-		if a, ok := s.(p2p.AskSwarm[A]); ok {
+		if a, ok := s.(p2p.AskSwarm[A]); ok && askOK {
 			e.ask = a
 		}
 		if sc, ok := s.(p2p.Secure[A, x509.PublicKey]); ok {
